@@ -78,6 +78,8 @@ pub enum Ty {
     GNode,
     List(Box<Ty>),
     Set(Box<Ty>),
+    /// any value (elements of heterogeneous lists)
+    Any,
 }
 
 #[derive(Clone, Debug)]
@@ -177,6 +179,7 @@ struct G<'t, 'b> {
     fault_done: Option<&'static str>,
     current_entry_covers: Option<(String, &'static str)>,
     loop_depth: usize,
+    extra_items: Vec<Item>,
 }
 
 impl<'t, 'b> G<'t, 'b> {
@@ -351,6 +354,10 @@ impl<'t, 'b> G<'t, 'b> {
                 Expr::Int(v, zeros)
             }
             Ty::Str => Expr::Str(STRS[self.t.choose(STRS.len())].to_string()),
+            Ty::Any => {
+                let c = self.concrete_any();
+                self.lit(&c, need_local, depth)
+            }
             Ty::Syn => Expr::Null,      // callers check availability first
             Ty::GNode => Expr::Call { func: "node".into(), args: vec![] },
             Ty::List(inner) => {
@@ -384,11 +391,21 @@ impl<'t, 'b> G<'t, 'b> {
         // values that may be rendered to text: no graph nodes unless allowed; never sets that
         // contain syntax nodes (their element order is address-dependent)
         match ty {
+            Ty::Any => false,
             Ty::GNode => self.cfg.gnode_text,
             Ty::List(i) => self.text_ok(i),
             Ty::Set(i) => **i != Ty::Syn && **i != Ty::GNode && self.text_ok(i),
             _ => true,
         }
+    }
+
+    /// A concrete type for an `Any` slot: plain literals and calls mixed.
+    fn concrete_any(&mut self) -> Ty {
+        let mut tys = vec![Ty::Null, Ty::Bool, Ty::Int, Ty::Str, Ty::GNode, Ty::List(Box::new(Ty::Int))];
+        if !self.syn_sources(false).is_empty() {
+            tys.push(Ty::Syn);
+        }
+        tys[self.t.choose(tys.len())].clone()
     }
 
     fn any_text_ty(&mut self) -> Ty {
@@ -428,6 +445,10 @@ impl<'t, 'b> G<'t, 'b> {
             return self.lit(ty, need_local, depth);
         }
         match ty {
+            Ty::Any => {
+                let c = self.concrete_any();
+                self.expr(&c, need_local, depth)
+            }
             Ty::Null => Expr::Null,
             Ty::Bool => match self.t.weighted(&[4, 3, 2, 2, 1, 1, 1]) {
                 0 => self.lit(ty, need_local, depth),
@@ -452,7 +473,8 @@ impl<'t, 'b> G<'t, 'b> {
                     Expr::Call { func: "is-null".into(), args: vec![a] }
                 }
                 5 => {
-                    let a = self.expr(&Ty::List(Box::new(Ty::Int)), need_local, depth + 1);
+                    let inner = [Ty::Int, Ty::Any][self.t.choose(2)].clone();
+                    let a = self.expr(&Ty::List(Box::new(inner)), need_local, depth + 1);
                     Expr::Call { func: "is-empty".into(), args: vec![a] }
                 }
                 _ => {
@@ -481,7 +503,7 @@ impl<'t, 'b> G<'t, 'b> {
                     Expr::Call { func: "plus".into(), args }
                 }
                 2 => {
-                    let inner = [Ty::Int, Ty::Str][self.t.choose(2)].clone();
+                    let inner = [Ty::Int, Ty::Str, Ty::Any, Ty::GNode][self.t.choose(4)].clone();
                     let a = self.expr(&Ty::List(Box::new(inner)), need_local, depth + 1);
                     Expr::Call { func: "length".into(), args: vec![a] }
                 }
@@ -663,6 +685,9 @@ impl<'t, 'b> G<'t, 'b> {
             Ty::List(Box::new(Ty::Str)),
             Ty::Set(Box::new(Ty::Int)),
             Ty::Set(Box::new(Ty::Str)),
+            Ty::List(Box::new(Ty::Any)),
+            Ty::List(Box::new(Ty::GNode)),
+            Ty::Set(Box::new(Ty::Any)),
         ];
         if !self.syn_sources(false).is_empty() {
             tys.push(Ty::Syn);
@@ -1214,6 +1239,36 @@ impl<'t, 'b> G<'t, 'b> {
                 arms: vec![ScanArm { regex: "a".into(), body: vec![Stmt::Print { id: self.id(), values: vec![Expr::RegexCap(3)] }] }],
             },
             "format-args" => Stmt::Let { id, var: VarRef::Plain { id: self.id(), name: self.fresh_name("flt") }, value: Expr::Call { func: "format".into(), args: vec![Expr::Str("{} {}".into()), Expr::Int(1, 0)] } },
+            "type-in-list" => {
+                // an unused variable whose list mixes a plain element with a failing call
+                let bad = Expr::Call { func: "plus".into(), args: vec![Expr::Str("a".into()), Expr::Int(1, 0)] };
+                let value = match self.t.choose(4) {
+                    0 => Expr::List(vec![Expr::Int(1, 0), bad]),
+                    1 => Expr::List(vec![bad, Expr::Str("tag".into())]),
+                    2 => Expr::Set(vec![Expr::Null, bad]),
+                    _ => Expr::List(vec![Expr::List(vec![Expr::Int(1, 0)]), Expr::List(vec![Expr::True, bad])]),
+                };
+                Stmt::Let { id, var: VarRef::Plain { id: self.id(), name: self.fresh_name("flt") }, value }
+            }
+            "shorthand-free-variable" => {
+                // a shorthand whose body names a local of the block that uses it: not visible there
+                let locals: Vec<String> = self.visible().into_iter().map(|l| l.name).collect();
+                if locals.is_empty() || self.in_shorthand_body {
+                    Stmt::Let { id, var: VarRef::Plain { id: self.id(), name: self.fresh_name("flt") }, value: Expr::Call { func: "not".into(), args: vec![Expr::Int(1, 0)] } }
+                } else {
+                    let free = locals[self.t.choose(locals.len())].clone();
+                    let sh = self.fresh_name("flt_sh");
+                    let item = Item::Shorthand {
+                        id: self.id(),
+                        name: sh.clone(),
+                        var_id: self.id(),
+                        var: "flt_p".into(),
+                        attrs: vec![Attr { name: "flt_a".into(), value: Some(Expr::Var { id: self.id(), name: "flt_p".into() }) }, Attr { name: "flt_b".into(), value: Some(Expr::Var { id: self.id(), name: free }) }],
+                    };
+                    self.extra_items.push(item);
+                    Stmt::AttrNode { id, node: target, attrs: vec![Attr { name: sh, value: Some(Expr::Int(1, 0)) }] }
+                }
+            }
             "overflow" => Stmt::Let { id, var: VarRef::Plain { id: self.id(), name: self.fresh_name("flt") }, value: Expr::Call { func: "plus".into(), args: vec![Expr::Int(4294967295, 0), Expr::Int(1, 0)] } },
             _ => Stmt::Let { id, var: VarRef::Plain { id: self.id(), name: self.fresh_name("flt") }, value: Expr::Call { func: "not".into(), args: vec![Expr::Int(1, 0)] } },
         })
@@ -1235,6 +1290,8 @@ pub const FAULTS: &[&str] = &[
     "regex-capture",
     "format-args",
     "overflow",
+    "type-in-list",
+    "shorthand-free-variable",
 ];
 
 // ------------------------------------------------------------------------------------------------
@@ -1407,6 +1464,7 @@ pub fn generate(t: &mut Tape, cfg: &GenCfg) -> Generated {
         fault_done: None,
         current_entry_covers: None,
         loop_depth: 0,
+        extra_items: vec![],
     };
     let mut head: Vec<Item> = vec![];
     let mut supplied = BTreeMap::new();
@@ -1475,6 +1533,7 @@ pub fn generate(t: &mut Tape, cfg: &GenCfg) -> Generated {
     // head items before the stanzas; sometimes one of them moves to the end of the file
     let move_last = if !head.is_empty() && g.t.chance(1, 5) { head.pop() } else { None };
     items.extend(head);
+    items.extend(std::mem::take(&mut g.extra_items));
     items.extend(stanzas);
     if let Some(it) = move_last {
         items.push(it);
